@@ -108,6 +108,7 @@ def run(ctx):
         "H (SHA-256 over serde_json of the hash view) is injective — hypothesis of every theorem, not an axiom",
         "interface-visible edits are drawn from a catalogue of 15 variants of items no dependent uses (signature, field, variant, trait method, impl, item added/removed, return type, inherent impl, and four pairs that differ only in the ORDER of struct fields, enum variants, trait methods, parameter types)",
         "an artefact is corrupted in at most one field between two rewrites",
+        "version fields are altered in both directions (`format_version`/`compiler_abi`: +1 / +6, and `.older`: the next smaller number) at top level of a core, inside its embedded interface and in an interface file; a consistently re-hashed interface of another version is tried for 7 (format_version, compiler_abi) pairs on either side of the current ones; in the `cat:iface-read` / `cat:foreign` catalogues every direct dependent checks and builds against the altered file before anything rewrites it",
     ]
     tb = ["Lean 4 kernel", "axioms: " + ",".join(ctx.proof["axioms"] or ["none"]),
           "harness/src/c15.rs (source templates, JSON mutation, error-message classification)", "tools/props/c15.py"]
